@@ -111,7 +111,6 @@ func VP_C07_finalize_xattrs() {
 	dev := vpdev.NewMemDev("img", -1)
 	val := c07Name("value", 4)
 	vp.Cover("xattr writer called")
-	vp.KnownPanic("KF-C07-6", "finalize.go")
 	vp.NoPanic()
 	written, start, err := writeXattrs([]map[string]string{{"user.k": val}}, dev, nil, 4096)
 	vp.AllowPanic()
